@@ -414,11 +414,12 @@ Section OpInd.
   Hypothesis Hlen : P OLen.
   Hypothesis Hprint : P OPrint.
   Hypothesis Heq : forall l, P (OEqLit l).
+  Hypothesis Hreset : forall l, P (OReset l).
   Hypothesis Hloop : forall body, Forall P body -> P (OLoop body).
   Fixpoint op_ind' (o : op) : P o :=
     match o with
     | OSet k v => Hset k v | ODel k => Hdel k | OGet k => Hget k | OHas k => Hhas k
-    | OLen => Hlen | OPrint => Hprint | OEqLit l => Heq l
+    | OLen => Hlen | OPrint => Hprint | OEqLit l => Heq l | OReset l => Hreset l
     | OLoop body =>
         Hloop body ((fix go (l : list op) : Forall P l :=
                        match l with [] => Forall_nil P | o' :: t => Forall_cons o' (op_ind' o') (go t) end) body)
@@ -428,7 +429,7 @@ End OpInd.
 Lemma run_op_sim : forall o cur x y, Rst x y ->
   Rst (run_op omap_dict o cur x) (run_op alist_dict o cur y).
 Proof.
-  induction o as [k v|k|k|k| | |l|body IHbody] using op_ind'; intros cur x y H;
+  induction o as [k v|k|k|k| | |l|l|body IHbody] using op_ind'; intros cur x y H;
     pose proof (running_agree x y H) as Hr; simpl; rewrite <- Hr;
     destruct (running x) eqn:Erun; simpl; try exact H;
     destruct H as [HR [Ho Hs]].
@@ -441,6 +442,7 @@ Proof.
   - rewrite (list_agree _ _ HR). split; [exact HR | split; simpl; congruence].
   - rewrite (equals_agree Z.eqb _ _ _ _ HR (literal_R l)).
     split; [exact HR | split; simpl; congruence].
+  - split; [apply literal_R | split; assumption].
   - (* loop: same snapshot, same membership tests, related bodies *)
     rewrite <- (keys_agree _ _ HR).
     assert (Hxy : Rst x y) by (split; [exact HR | split; assumption]).
@@ -556,7 +558,7 @@ End SpecLaws.
 Lemma spec_op_no_hostcrash : forall o cur (y : st (alist Z)),
   stat y <> HostCrash -> stat (run_op alist_dict o cur y) <> HostCrash.
 Proof.
-  induction o as [k v|k|k|k| | |l|body IHbody] using op_ind'; intros cur y H; simpl;
+  induction o as [k v|k|k|k| | |l|l|body IHbody] using op_ind'; intros cur y H; simpl;
     destruct (running y) eqn:Er; simpl; try exact H.
   - destruct (aget (key_of cur k) (dmap y)); simpl; [exact H | discriminate].
   - generalize (map fst (dmap y)). intro ks. clear Er. revert y H. unfold loop_fold.
